@@ -31,6 +31,13 @@ INFO = {
  "c38-agent2": dict(prop="C38", file="p2panda-encryption/src/key_registry.rs", needs="two one-time bundles [valid, later-added and meanwhile expired]: the expired one is popped", checks=["C38"]),
  "c34-agent2": dict(prop="C34", file="p2panda-encryption/src/message_scheme/ratchet.rs", needs="ooo_tolerance > max_forward + 1 and several forward calls before a late generation is requested (queue truncated too short)", checks=["C34"]),
  "c40-agent2": dict(prop="C40", file="p2panda/src/streams/sync_metrics.rs", needs="a session failing after its sync phase finished (stored bytes added again on Failed)", checks=["C40"]),
+ "c25-agent2": dict(prop="C25", file="p2panda-sync/src/protocols/topic_handshake.rs", needs="the stream closes after the acceptor sent its Done but before the initiator's final Done (None accepted in place of Done)", checks=["C25"]),
+ "c12-agent2": dict(prop="C12", file="p2panda-stream/src/orderer/processor.rs", needs="next() dropped at the (now non-transactional) get_operation await after the dequeue was committed", checks=["C12"]),
+ "c28-agent2": dict(prop="C28", file="p2panda-net/src/discovery/backoff.rs", needs="value exactly at the maximum when the reset interval elapses (early return for value >= max skips the reset)", checks=["C28"]),
+ "c07-agent2": dict(prop="C07", file="p2panda/src/streams/acked.rs", needs="a persisted cursor that already holds an entry for a foreign topic's log (via replace_cursor), then an ack of that foreign log", checks=["C07"],
+                    note="NOT DETECTED: the change is in Acked::ack (SQLite store + tokio semaphore), which C07's PARTIAL claim states as outside the encoded code (only the Cursor algebra is decided)"),
+ "c03-agent2": dict(prop="C03", file="p2panda-stream/src/ingest/operation.rs", needs="a late, older prune-flagged operation after a newer prune point was stored (lookup of the stored head skipped when the prune flag is set)", checks=["C05", "C03"],
+                    note="first trial: missed (the ingest glue was modelled, not encoded); caught after the real ingest_operation was mounted over a model store (harness/core/src/ingest.rs)"),
  "c33-agent2": dict(prop="C33", file="p2panda-auth/src/group/crdt/state.rs", needs="an active non-manager promoting or demoting ITSELF (the self-removal exception of remove() leaks into modify())", checks=["C33"]),
 }
 INFO.update(json.load(open(os.path.join(S, "extra_info.json"))) if os.path.exists(os.path.join(S, "extra_info.json")) else {})
@@ -60,6 +67,6 @@ for sid in sorted(os.listdir(S)):
                 note=info.get("note", ""))
     json.dump(meta, open(os.path.join(d, "meta.json"), "w"), indent=1)
     how = "; ".join("%s (%s)" % (c, ", ".join(r.split("--")[-1] for r in det[c]["replays"]) or "violation") for c in caught) or "—"
-    rows.append("| `%s` | %s | %s | %s | %s |" % (sid, info["prop"], info["needs"], how, (", ".join(missed) + (" (unaffected property)" if missed else "")) if missed else "–") + (" " + info.get("note", "") if info.get("note") else ""))
+    rows.append("| `%s` | %s | %s | %s | %s |" % (sid, info["prop"], info["needs"], how, ", ".join(c + (" (the affected property: not detected)" if c == info["prop"] else " (unaffected property)") for c in missed) if missed else "–") + (" " + info.get("note", "") if info.get("note") else ""))
 print("| seeded change | breaks | needs to manifest | caught by (assertion) | checks that stayed green |\n|---|---|---|---|---|")
 print("\n".join(rows))
